@@ -5,7 +5,7 @@ import numpy as np
 
 from harness import circgen as cg, logicsim_corr as lc, simcheck as sk, wavecheck as wk, wavesim_corr as wc, map_oracle as mo
 
-THEOREMS = ['C07_levels_valid', 'C07_any_order_in_level', 'C07_threads_once', 'C07_build_ops_ssa']
+THEOREMS = ['C07_levels_valid', 'C07_any_order_in_level', 'C07_threads_once', 'C07_build_ops_ssa', 'C07_build_levels_valid']
 
 
 def permute_levels(sim, rng):
